@@ -121,6 +121,9 @@ Call == /\ Is("call") /\ Adv
         /\ obs' = IF Ev.m = "skip" THEN (IF obs.ended = "ret" THEN [obs EXCEPT !.ended = "skip"] ELSE obs)   \* a skip raised from a cleanup function
                   ELSE [obs EXCEPT !.sig = "fail"]
         /\ UNCHANGED <<scen, viol, words, wpos, fz, res, pr, kind, runno, iter>>
+\* T.Repeat could not find an action that runs and fails the test case itself
+ActionNone == /\ Is("h.action.none") /\ Adv /\ obs' = [obs EXCEPT !.sig = "fail"]
+              /\ UNCHANGED <<scen, viol, words, wpos, fz, res, pr, kind, runno, iter>>
 \* Draws made inside an attempt that is rejected afterwards (a Repeat action that skips after drawing, a Custom
 \* function attempt that skips) belong to bits that pruning removes: they are not part of the test case's values.
 AttemptBegin ==
@@ -204,13 +207,13 @@ OnceEnd ==
 RunBegin == /\ Is("run.begin") /\ Adv /\ runno' = Ev.run /\ UNCHANGED <<scen, viol, words, wpos, fz, obs, res, pr, kind, iter>>
 
 Handled == {"hang", "sm.action.begin", "sm.action.end", "cinv.begin", "cinv.end", "run.begin", "scen.begin", "scen.end", "h.phase", "h.ff.load", "h.fuzz.buf", "fuzz.begin", "h.bits", "h.overrun", "h.prune.begin", "h.prune.end",
-            "draw", "call", "inv.begin", "inv.end", "fuzz.end", "h.once.end"}
+            "draw", "call", "inv.begin", "inv.end", "fuzz.end", "h.once.end", "h.action.none"}
 \* the watchdog saw an invocation still running after 90 s: the library hung
 Hang == /\ Is("hang") /\ Adv /\ viol' = viol \cup {"hangs"} /\ UNCHANGED <<scen, words, wpos, fz, obs, res, pr, kind, runno, iter>>
 
 Other == /\ l <= Len(Trace) /\ Trace[l].ev \notin Handled /\ Adv /\ UNCHANGED <<scen, viol, words, wpos, fz, obs, res, pr, kind, runno, iter>>
 
-Next == Hang \/ AttemptBegin \/ AttemptEnd \/ RunBegin \/ ScenBegin \/ ScenEnd \/ Phase \/ FFLoad \/ FuzzBuf \/ FuzzBegin \/ Bits \/ Overrun \/ PruneBegin \/ PruneEnd \/ Draw \/ Call
+Next == Hang \/ AttemptBegin \/ AttemptEnd \/ RunBegin \/ ScenBegin \/ ScenEnd \/ Phase \/ FFLoad \/ FuzzBuf \/ FuzzBegin \/ Bits \/ Overrun \/ PruneBegin \/ PruneEnd \/ Draw \/ Call \/ ActionNone
         \/ InvBegin \/ InvEnd \/ FuzzEnd \/ OnceEnd \/ Other
 Spec == Init /\ [][Next]_vars
 
